@@ -113,25 +113,30 @@ fn post_theta(c: CompactThetaSketch) {
 }
 
 fn post_cpc(s: CpcSketch, seed: u64) {
-    let _ = (s.estimate(), s.is_empty(), s.lg_k(), s.num_coupons(), s.validate());
+    // validate() materializes the k x 64 bit matrix: only where that is small
+    let small = s.lg_k() <= 16;
+    let _ = (s.estimate(), s.is_empty(), s.lg_k(), s.num_coupons(), small && s.validate());
     for n in NSD {
         let _ = (s.lower_bound(n), s.upper_bound(n));
     }
     let mut m = s.clone();
     m.update(1u64);
     m.update("x");
-    let _ = (m.estimate(), m.validate());
-    let mut u = CpcUnion::with_seed(s.lg_k(), seed);
-    u.update(&s);
-    u.update(&s.clone());
-    u.update(&CpcSketch::with_seed(5, seed));
-    let r = u.to_sketch();
-    let _ = (r.estimate(), r.serialize());
+    let _ = (m.estimate(), small && m.validate());
+    if s.lg_k() <= 16 {
+        let mut u = CpcUnion::with_seed(s.lg_k(), seed);
+        u.update(&s);
+        u.update(&s.clone());
+        u.update(&CpcSketch::with_seed(5, seed));
+        let r = u.to_sketch();
+        let _ = (r.estimate(), r.serialize());
+    }
     let img = s.serialize();
     let _ = CpcSketch::deserialize_with_seed(&img, seed).map(|d| d.estimate());
     let _ = m.serialize();
-    // unions with partners of other lg_k and flavors (both orders)
-    {
+    // unions with partners of other lg_k and flavors (both orders); a union allocates a k x 64
+    // bit matrix, so the very large lg_k only get the light part of the script
+    if s.lg_k() <= 16 {
         let mut big = CpcSketch::with_seed(10, seed);
         for i in 0..6000u64 {
             big.update(i);
@@ -204,7 +209,14 @@ macro_rules! post_cm {
             // updates and merges only within the documented range (totals that fit)
             if s.total_weight() >= 0 as $t && (s.total_weight() as i128) < (<$t>::MAX as i128) / 4 {
                 let img0 = s.serialize();
-                let counters_small = img0.len() >= 24 && img0[24..].chunks(8).all(|c| (i64::from_le_bytes(c.try_into().unwrap()) as i128).abs() < (<$t>::MAX as i128) / 4);
+                // counters are stored as 8-byte values of the counter's signedness
+                let unsigned = <$t>::MIN == 0 as $t;
+                let counters_small = img0.len() >= 24
+                    && img0[24..].chunks(8).all(|c| {
+                        let raw = u64::from_le_bytes(c.try_into().unwrap());
+                        let v: i128 = if unsigned { raw as i128 } else { (raw as i64) as i128 };
+                        v.abs() < (<$t>::MAX as i128) / 4
+                    });
                 if counters_small {
                     let mut m = s.clone();
                     m.update(1u64);
@@ -275,6 +287,12 @@ fn post_td(mut t: TDigestMut) {
     let _ = (t.k(), t.is_empty(), t.min_value(), t.max_value(), t.total_weight());
     let _ = (t.rank(0.0), t.rank(1e9), t.quantile(0.0), t.quantile(0.5), t.quantile(1.0));
     let _ = (t.cdf(&[0.0]), t.pmf(&[0.0, 1.0]), t.cdf(&[]));
+    // merges double the total weight: only within the documented range (the total fits u64)
+    if t.total_weight() >= (1u64 << 62) {
+        let img2 = t.serialize();
+        let _ = TDigestMut::deserialize(&img2, false).map(|d| d.total_weight());
+        return;
+    }
     let mut m = t.clone();
     m.update(1.0);
     m.update(-1.0);
@@ -444,6 +462,27 @@ pub fn seeds(tier: Tier) -> Vec<Seed> {
                 u.update(&d.s);
                 out.push(Seed { name: format!("cpc/lg{lg_k}/{fname}/merged"), family: "cpc", entries: vec![3, 5], bytes: u.to_sketch().serialize(), fields: cf.clone() });
             }
+        }
+        // hashed-item sketches: unlike the crafted orders they have surprising-value TABLES next
+        // to the window (Pinned and Sliding images with both sections)
+        for (fname, c) in [("Pinned+table", crate::c06_counts(lg_k, 3)), ("Sliding+table", crate::c06_counts(lg_k, 4) + (3u32 << lg_k))] {
+            let mut hs = CpcSketch::new(lg_k);
+            let mut i = 0u64;
+            while hs.num_coupons() < c && i < 1 << 24 {
+                hs.update(i);
+                i += 1;
+            }
+            let img = hs.serialize();
+            if crate::obs::cpc_preamble(&img).map(|p| p.flags & 24 == 24).unwrap_or(false) {
+                out.push(Seed { name: format!("cpc/lg{lg_k}/{fname}/hip"), family: "cpc", entries: vec![3, 5], bytes: img, fields: cf.clone() });
+            }
+        }
+        if lg_k == 4 {
+            // the largest lg_k, where the last row with column 63 is the reserved value u32::MAX
+            let mut big = CpcSketch::new(26);
+            big.update(1u64);
+            big.update(2u64);
+            out.push(Seed { name: "cpc/lg26/Sparse/hip".into(), family: "cpc", entries: vec![3, 5], bytes: big.serialize(), fields: cf.clone() });
         }
         let mut s7 = CpcSketch::with_seed(lg_k, 7);
         for i in 0..(3u64 << lg_k) {
@@ -717,6 +756,48 @@ pub fn build_cases(ctx: &Ctx, seeds: &[Seed]) -> Vec<Case> {
                 }
             }
         }
+        // M10 CPC pair-stream replacement: the compressed table section is re-encoded (by the
+        // harness's own encoder) so that the DECODED pairs take chosen values: every column
+        // 0..=63 in the rows 0, 1, k-1, k, k+1, alone and after a pair (0, 0)
+        if s.family == "cpc" {
+            if let Ok(p) = crate::obs::cpc_preamble(&s.bytes) {
+                let has_sv = p.flags & 8 != 0;
+                let has_w = p.flags & 16 != 0;
+                if has_sv && p.lg_k <= 26 {
+                    let k = 1u32 << p.lg_k;
+                    let hip = p.flags & 4 != 0;
+                    let len_off = if has_w { 16 + if hip { 16 } else { 0 } } else { 12 };
+                    let rows: Vec<u32> = [0u32, 1, k - 1, k, k + 1].into_iter().filter(|&r| r < (1 << 26) + 2).collect();
+                    for &row in &rows {
+                        for col in 0..=63u8 {
+                            for lead in [false, true] {
+                                let mut pairs: Vec<(u32, u8)> = vec![];
+                                if lead {
+                                    if row == 0 && col == 0 {
+                                        continue;
+                                    }
+                                    pairs.push((0, 0));
+                                }
+                                pairs.push((row, col));
+                                let Some(stream) = crate::spec_cpc::encode_pairs(&pairs, p.lg_k) else { continue };
+                                let mut b = s.bytes[..p.sv_off].to_vec();
+                                let n = pairs.len() as u32;
+                                if has_w {
+                                    b[12..16].copy_from_slice(&n.to_le_bytes());
+                                } else {
+                                    b[8..12].copy_from_slice(&n.to_le_bytes());
+                                }
+                                b[len_off..len_off + 4].copy_from_slice(&((stream.len() / 4) as u32).to_le_bytes());
+                                b.extend_from_slice(&stream);
+                                for &e in &s.entries {
+                                    push(&mut cases, "cpc pair-stream replacement", e, b.clone(), si, format!("table section re-encoded as pairs {:?}", pairs), "pair stream".into());
+                                }
+                            }
+                        }
+                    }
+                }
+            }
+        }
         // M8 cross-family: the unmodified seed to every other entry point
         for e in 0..ENTRIES.len() {
             if !s.entries.contains(&e) {
@@ -777,11 +858,7 @@ pub fn run(ctx: &Ctx) -> i32 {
     ctx.count("cases (distinct entry point x byte string)", cases.len() as u64);
     let hist: Mutex<BTreeMap<String, u64>> = Mutex::new(BTreeMap::new());
     let died = Mutex::new(vec![]);
-    let r = e4::run_cases(
-        &cases,
-        16,
-        &|c: &Case| (c.entry, c.bytes.clone()),
-        &|c: &Case, v: &Verdict| {
+    let sink = |c: &Case, v: &Verdict, chk: bool| {
             let name = match v {
                 Verdict::Ok => "Ok",
                 Verdict::Err => "Err",
@@ -791,17 +868,22 @@ pub fn run(ctx: &Ctx) -> i32 {
                 Verdict::Hang => "HANG",
                 Verdict::Died(_) => "worker died",
             };
-            *hist.lock().unwrap().entry(name.to_string()).or_insert(0) += 1;
+            *hist.lock().unwrap().entry(format!("{}{name}", if chk { "chk build: " } else { "" })).or_insert(0) += 1;
+            // second pass (debug assertions + overflow checks): only panics are new information
+            if chk && !matches!(v, Verdict::Panic(_) | Verdict::PostPanic(_) | Verdict::Died(_)) {
+                return;
+            }
+            let b = if chk { "chk-build|" } else { "" };
             let fam = family_of_entry(c.entry);
             let seedname = if c.seed == usize::MAX { "(none)".to_string() } else { seeds[c.seed].name.clone() };
             let replay = || json!({"kind":"bytes","entry":c.entry,"entry_name":ENTRIES[c.entry],"seed":seedname,"mutation":c.mutation,"bytes_hex":hex(&c.bytes)});
             match v {
                 Verdict::Ok | Verdict::Err => {}
                 Verdict::Panic(p) => {
-                    ctx.violation(&format!("panic|{fam}|{}", p.site), &format!("{} panicked on a {}-byte input ({} / {}): {} at {}", ENTRIES[c.entry], c.bytes.len(), seedname, c.mutation, p.message, p.location), replay());
+                    ctx.violation(&format!("{b}panic|{fam}|{}", p.site), &format!("{} panicked on a {}-byte input ({} / {}): {} at {}", ENTRIES[c.entry], c.bytes.len(), seedname, c.mutation, p.message, p.location), replay());
                 }
                 Verdict::PostPanic(p) => {
-                    ctx.violation(&format!("ok_then_panic|{fam}|{}", p.site), &format!("{} accepted a {}-byte input ({} / {}) but using the value panicked: {} at {}", ENTRIES[c.entry], c.bytes.len(), seedname, c.mutation, p.message, p.location), replay());
+                    ctx.violation(&format!("{b}ok_then_panic|{fam}|{}", p.site), &format!("{} accepted a {}-byte input ({} / {}) but using the value panicked: {} at {}", ENTRIES[c.entry], c.bytes.len(), seedname, c.mutation, p.message, p.location), replay());
                 }
                 Verdict::Alloc(sz) => {
                     // an EMPTY Bloom / Count-Min image is pure configuration: the allocation is the
@@ -824,17 +906,19 @@ pub fn run(ctx: &Ctx) -> i32 {
                 }
                 Verdict::Died(why) => {
                     died.lock().unwrap().push(format!("{} on {} / {}: {why}", ENTRIES[c.entry], seedname, c.mutation));
-                    ctx.violation(&format!("abort|{fam}|{}", c.locus), &format!("{} killed the process on a {}-byte input ({} / {}): {why}", ENTRIES[c.entry], c.bytes.len(), seedname, c.mutation), replay());
+                    ctx.violation(&format!("{b}abort|{fam}|{}", c.locus), &format!("{} killed the process on a {}-byte input ({} / {}): {why}", ENTRIES[c.entry], c.bytes.len(), seedname, c.mutation), replay());
                 }
             }
-        },
-    );
-    if let Err(e) = r {
-        eprintln!("machinery error: {e}");
-        return 2;
+        };
+    for chk in [false, true] {
+        let r = e4::run_cases_profile(&cases, 16, chk, &|c: &Case| (c.entry, c.bytes.clone()), &|c: &Case, v: &Verdict| sink(c, v, chk));
+        if let Err(e) = r {
+            eprintln!("machinery error: {e}");
+            return 2;
+        }
+        ctx.add_states(cases.len() as u64);
+        ctx.add_transitions(cases.len() as u64);
     }
-    ctx.add_states(cases.len() as u64);
-    ctx.add_transitions(cases.len() as u64);
     let h = hist.lock().unwrap().clone();
     for (k, v) in &h {
         ctx.count(&format!("verdict: {k}"), *v);
@@ -850,6 +934,7 @@ pub fn run(ctx: &Ctx) -> i32 {
         "bounds": {
             "operators": "per seed and entry point: every truncation, extension by 1..8 bytes of 0x00/0xFF, every single-bit flip in the first 64 bytes, 5 byte values at every offset, every named field x boundary values (0,1,2,3,max,max-1,max/2,max/2+1,cur+-1, every power of two, float specials), pairs of named-field mutations; each of the last eight 4-byte / four 8-byte records overwritten by a copy of another (exact and with every single bit flipped); every seed unmodified to every foreign entry point; all inputs of length <= 1 (thorough: <= 2) and valid-header short strings to every entry point",
             "post_script": "values returned as Ok are queried, re-serialized, merged with themselves, and driven with enough distinct updates for several promotions / cur_min shifts (HLL lg_k<=10), window moves (CPC lg_k<=8), map growth and two purges (FI lg_max<=10), buffer flushes in both directions (t-digest)",
+            "builds": "every case runs twice: in the release build and in the chk build (debug assertions + arithmetic overflow checks); panics of the second pass are keyed chk-build|...",
             "limits": "single allocation <= max(8 MiB, 64 x input length) during deserialize (1 GiB host guard for the post-script on accepted values); 3 s per case",
         },
         "verdicts": h,
